@@ -181,8 +181,9 @@ def table_pair(left, right):
     return {FACE: t}
 
 
-def run(P, table, vector=None, widths=None, padding=None, n_faces=2, other_component="auto", dims_scalar=None, partner_dims_swapped=False, prune=False, grid_boundary=None, trailing_dim=False):
-    """vector: None (scalar), 'parallel' (component along AX, the padded axis) or 'tangential' (component along AY)."""
+def run(P, table, vector=None, widths=None, padding=None, n_faces=2, other_component="auto", dims_scalar=None, partner_dims_swapped=False, prune=False, grid_boundary=None, trailing_dim=False, third_axis=False):
+    """third_axis: the grid has a third, unconnected axis AZ declared *before* the horizontal ones; the data has a dimension of it and AZ is padded too.
+    vector: None (scalar), 'parallel' (component along AX, the padded axis) or 'tangential' (component along AY)."""
     w = Lin.sym("w")
     # prune: the coordinate-bookkeeping test (`<dim> in <slice>.coords`) is taken as False; it does not influence
     # which cells are selected (the unpruned runs check that both arms agree) and only multiplies the paths
@@ -192,12 +193,16 @@ def run(P, table, vector=None, widths=None, padding=None, n_faces=2, other_compo
     # whatever way the tree at hand does that - the harness knows nothing of the private function's parameters
     fi = P.func("padding:pad")
 
+    AZ = Sym("AZ")
+
     def mk(name, dims):
         dims = list(dims) + ([Sym("zlast")] if trailing_dim else [])  # an extra dimension stored after the horizontal ones
+        if third_axis:
+            dims = [dims[0], dimsym("AZ", "center")] + dims[1:]
         return make_da(name, dims, dims0=tuple(dims), n_faces=n_faces)
 
     def make():
-        g = make_grid(("AX", "AY"), face_connections=copy.deepcopy(table), facedim=FACE, **({"boundary": grid_boundary} if grid_boundary else {}))
+        g = make_grid(("AZ", "AX", "AY") if third_axis else ("AX", "AY"), face_connections=copy.deepcopy(table), facedim=FACE, **({"boundary": grid_boundary} if grid_boundary else {}))
         if vector is None:
             da = mk("MAIN", dims_scalar or [Sym("t"), FACE, dimsym("AY", "center"), dimsym("AX", "center")])
             oc = None
@@ -219,7 +224,12 @@ def run(P, table, vector=None, widths=None, padding=None, n_faces=2, other_compo
                 oc = other_component
         pw = copy.deepcopy(widths) if widths is not None else {AX: (w, w)}
         pd = copy.deepcopy(padding) if padding is not None else dict(RULES_IN_FORCE)
-        return dict(data=da, grid=g, boundary_width=pw, boundary=pd, fill_value=dict(FILLS_IN_FORCE), other_component=oc)
+        fv = dict(FILLS_IN_FORCE)
+        if third_axis:
+            pw = {AZ: (w, w), **pw}
+            pd = {AZ: "extend", **pd} if isinstance(pd, dict) else pd
+            fv[AZ] = 3.5
+        return dict(data=da, grid=g, boundary_width=pw, boundary=pd, fill_value=fv, other_component=oc)
 
     return ev.run_paths(fi, make)
 
